@@ -37,7 +37,7 @@ META = {
             "k / n / radius / voxel sizes derived from the cloud's own distance spectrum incl. exact hits of the radius and "
             "of cell boundaries on fixed-point clouds, dtype float32/float64, batch shapes where documented); points are "
             "shuffled so that outliers sit at arbitrary positions; hand-made corner clouds first (1..3 points, one voxel, "
-            "nothing retained, #retained <= k), then a FIXED-SEED CORPUS of 1113 cases independent of VERIF_SEED (per stream "
+            "nothing retained, #retained <= k), then a FIXED-SEED CORPUS of 1117 cases independent of VERIF_SEED (per stream "
             "ord x dtype x kind crossed with: magnitudes 2^-400..2^400 (f32: 2^-40..2^30), exact radius hits / 0 / inf, "
             "duplicates, k >= 17 and N2 > 40, every flag combination, memory layouts cols/rows/transposed/expanded, one "
             "tensor in two roles, mixed-regime batches, RNG extremes, 36 call histories on caller-held tensors with one "
@@ -599,7 +599,7 @@ def check_knn(ctx: Ctx, case, jobs: Jobs | None = None) -> bool:
                     return False
         # model
         if jobs is not None and b < case.get("model_items", 1):
-            line = (f"c18.knn {U.ord_tok(o)} {1 if largest else 0} {k} {case['pdim']} {case['N']} {case['N2']} "
+            line = (f"c18.api.knn {U.ord_tok(o)} {1 if largest else 0} {k} {case['pdim']} {case['N']} {case['N2']} "
                     + cloud_tokens(ref_items[b]) + " " + cloud_tokens(nbr_items[b]))
             unamb = [row_unambiguous(rows[i], d[i], k, largest, tol, exact) for i in range(case["N"])]
 
@@ -1280,16 +1280,19 @@ def check_randf(ctx: Ctx, case, jobs: Jobs | None = None) -> bool:
                 return False
     perms = [vs for (nm, a, vs) in log if nm == "randperm"]
     if jobs is not None and len(perms) == 1 and sorted(perms[0]) == list(range(N)):
-        line = f"c18.randf {D} {N} {num} " + " ".join(map(str, perms[0])) + " " + cloud_tokens(items[0])
+        nb_model = nB if nB * N * D <= 4000 else 1          # the whole batch goes to the model: ONE draw for every item
+        line = f"c18.api.randf {D} {N} {num} {nb_model} " + " ".join(map(str, perms[0])) + " " \
+               + " ".join(cloud_tokens(items[b_]) for b_ in range(nb_model))
 
-        def cb(st, toks, got=outs[0].double()):
+        def cb(st, toks, got=outs[:nb_model].double()):
             if st != "ok":
                 ctx.disagree("randf", case, f"model replied {toks}")
                 return
-            mv = torch.tensor(nums(toks), dtype=torch.float64).reshape(num, D)
+            mv = torch.tensor(nums(toks), dtype=torch.float64).reshape(nb_model, num, D)
             if not torch.equal(mv, got):
-                ctx.disagree("randf", case, f"implementation is not points[perm[:num]] for the observed draw {perms[0][:num]}")
-        jobs.add(N, line, cb)
+                ctx.disagree("randf", case, f"implementation is not points[..., perm[:num], :] for the observed draw {perms[0][:num]} "
+                                            f"on every one of the {nb_model} batch items")
+        jobs.add(N * nb_model, line, cb)
     elif jobs is not None:
         ctx.count("randf.rng-unobserved")
     return True
@@ -1459,6 +1462,28 @@ def check_camera(ctx: Ctx, case, jobs: Jobs | None = None) -> bool:
             if u1.shape != uvB[b].shape or bool((far(u1, uvB[b], tolu[b]) & okmask[b].unsqueeze(-1)).any()):
                 ctx.fail(case, f"camera-itemwise: batch item {b} alone projects to {u1.tolist()} but inside the batch to {uvB[b].tolist()}")
                 return False
+    if jobs is not None and B * n <= 40 and not case.get("aliasK") and bool(okmask.all()):
+        def shp(t_):
+            return f"{len(t_)} " + " ".join(map(str, t_)) if len(t_) else "0"
+        bp_, bk_ = tuple(pts.shape[:-2]), tuple(K.shape[:-2])
+        line = f"c18.api.p2pb {d} {1 if ext is not None else 0} {shp(bp_)} {shp(bk_)} " \
+               + (f"{shp(tuple(ext.shape[:-1]))} " if ext is not None else "") + f"{n} " \
+               + common.wire_list(pts.reshape(-1).tolist() + K.reshape(-1).tolist() + (ext.reshape(-1).tolist() if ext is not None else []))
+
+        def cbb(st, toks, uvB=uvB, tolu=tolu):
+            if st != "ok":
+                ctx.disagree("camera", case, f"broadcasting model replied {toks} where point2pixel returned shape {tuple(uv.shape)}")
+                return
+            rk = int(toks[0])
+            mshape = tuple(int(t_) for t_ in toks[1:1 + rk])
+            if mshape != tuple(bshape):
+                ctx.disagree("camera", case, f"broadcasting model: batch shape {mshape}, implementation {tuple(bshape)}")
+                return
+            mv = torch.tensor(nums(toks[1 + rk:]), dtype=torch.float64).reshape(B, n, 2)
+            if bool(far(mv, uvB, tolu).any()):
+                j = far(mv, uvB, tolu).nonzero()[0].tolist()
+                ctx.disagree("camera", case, f"broadcasting model: item {j} implementation {uvB[j[0], j[1]].tolist()} model {mv[j[0], j[1]].tolist()}")
+        jobs.add(B * n, line, cbb)
     if jobs is not None:
         sel = [(b, i) for b in range(B) for i in range(n)]
         random.Random(case["data_seed"] + 1).shuffle(sel)
@@ -1572,6 +1597,31 @@ def check_camera(ctx: Ctx, case, jobs: Jobs | None = None) -> bool:
         if not torch.equal(P3[..., 2], depthT.expand_as(P3[..., 2])):
             ctx.fail(case, "camera-inverse: pixel2point does not return the given depth as z")
             return False
+        # whole-batch broadcasting of pixel2point (pixels, depth, intrinsics) through the model
+        if jobs is not None and int(math.prod(bsh2)) * n <= 40 and not case.get("aliasK"):
+            def shp2(t_):
+                return f"{len(t_)} " + " ".join(map(str, t_)) if len(t_) else "0"
+            line = f"c18.api.px2ptb {shp2(tuple(px.shape[:-2]))} {shp2(tuple(depth.shape[:-1]))} {shp2(tuple(K.shape[:-2]))} {n} " \
+                   + common.wire_list(px.reshape(-1).tolist() + depth.reshape(-1).tolist() + K.reshape(-1).tolist())
+            P3d = P3.double()
+
+            def cbp(st, toks, P3d=P3d):
+                if st != "ok":
+                    ctx.disagree("camera", case, f"broadcasting model replied {toks} where pixel2point returned shape {tuple(P3d.shape)}")
+                    return
+                rk = int(toks[0])
+                mshape = tuple(int(t_) for t_ in toks[1:1 + rk])
+                if mshape != tuple(bsh2):
+                    ctx.disagree("camera", case, f"pixel2point broadcasting model: batch shape {mshape}, implementation {tuple(bsh2)}")
+                    return
+                mv = torch.tensor(nums(toks[1 + rk:]), dtype=torch.float64).reshape(P3d.shape)
+                cxx = torch.stack([K[..., 0, 2], K[..., 1, 2], torch.zeros_like(K[..., 0, 2])], -1).unsqueeze(-2)
+                fxx = torch.stack([K[..., 0, 0], K[..., 1, 1], torch.ones_like(K[..., 0, 0])], -1).unsqueeze(-2)
+                tl = 64 * eps * (mv.abs() + (cxx * depth.unsqueeze(-1) / fxx).abs().expand_as(mv))
+                if bool(far(mv, P3d, tl).any()):
+                    j = far(mv, P3d, tl).nonzero()[0].tolist()
+                    ctx.disagree("camera", case, f"pixel2point broadcasting model: differs at {j}")
+            jobs.add(n, line, cbp)
         # model for pixel2point
         if jobs is not None:
             r = random.Random(case["data_seed"] + 17)
@@ -1741,6 +1791,118 @@ def gen_seq_cases(r):
         out.append({"stream": "seq", "steps": steps, "N": 2})
         out.append({"stream": "seq", "N": 2, "steps": [gen_homo_case(r, gmode=gm, dtype=["float32", "float64"][oi % 2], shape=[11, 5],
                                                                      layout=None, default64=bool(gi % 2)) for gi, gm in enumerate(order)]})
+    return out
+
+
+# ============================================================================ corner inputs of the entry points (audit round)
+
+EDGE_CALLS = ["voxel_empty_sizes", "voxel_empty_sizes_random", "nbr_pdim0", "nbr_width0", "nbr_empty_cloud", "knnf_pdim0", "knnf_width0",
+              "knn_width0", "randf_width0", "randf_empty_cloud", "voxel_empty_cloud", "knnf_empty_cloud", "knn_mismatch"]
+
+
+def check_edge(ctx: Ctx, case, jobs: Jobs | None = None) -> bool:
+    """degenerate sizes at the entry points: `voxel=[]`, `pdim=0` / width-0 points (max-norm over an empty range raises,
+    1- and 2-norm give 0), the empty cloud `(0, D)` with / without explicit `pdim`. Differential: the implementation
+    raises  <=>  the entry-point model rejects; when both accept, shapes (and rows where determined) agree."""
+    P = pp()
+    what, o, dtp = case["what"], case["ord"], case["dtype"]
+    T = U.DT[dtp]
+    N, D = case["N"], case["D"]
+    g = torch.Generator().manual_seed(case["data_seed"])
+    X = (torch.randint(-8, 9, (N, D), generator=g).double() / 4).to(T)
+    wire = cloud_tokens(X.double())
+    oa, ot = U.ord_arg(o), U.ord_tok(o)
+    line = None
+    try:
+        if what.startswith("voxel_empty_sizes"):
+            rnd_ = what.endswith("random")
+            out = P.voxel_filter(X, [], random=rnd_)
+            line = f"c18.api.voxel {1 if rnd_ else 0} {D} 0 {N} 0 " + wire
+        elif what in ("nbr_pdim0", "nbr_width0", "nbr_empty_cloud"):
+            pdim = case["pdim"]
+            out = P.nbr_filter(X, case["n"], 1.0, pdim=pdim, ord=oa)
+            line = f"c18.api.nbr {ot} {'none' if pdim is None else pdim} {D} {N} {case['n']} 1:0 0 " + wire
+        elif what in ("knnf_pdim0", "knnf_width0", "knnf_empty_cloud"):
+            pdim = case["pdim"]
+            out = P.knn_filter(X, case["k"], pdim=pdim, ord=oa, radius=case.get("radius"))
+            line = f"c18.api.knnf {ot} {'none' if pdim is None else pdim} {D} {N} {case['k']} {0 if case.get('radius') is None else 1} " \
+                   f"{to_wire(case.get('radius') or 0.0)} " + wire
+        elif what == "knn_width0":
+            out = P.knn(X, X, k=case["k"], ord=oa).values
+            line = f"c18.api.knn {ot} 0 {case['k']} {D} {N} {N} " + wire + " " + wire
+        elif what in ("randf_width0", "randf_empty_cloud"):
+            with U.observe_rng("lo", None):
+                out = P.random_filter(X, case["num"])
+            line = f"c18.api.randf {D} {N} {case['num']} 1 " + " ".join(map(str, range(N))) + " " + wire
+        elif what == "voxel_empty_cloud":
+            out = P.voxel_filter(X, [1.0] * max(1, D))
+            line = f"c18.api.voxel 0 {D} {max(1, D)} {N} 0 " + " ".join(["1:0"] * max(1, D)) + " " + wire
+        elif what == "knn_mismatch":
+            out = P.knn(X, torch.cat([X, X], -1), k=1).values
+            line = None
+        raised = None
+    except Exception as e:
+        raised = f"{type(e).__name__}: {str(e)[:80]}"
+        out = None
+    ctx.count("edge.raises" if raised else "edge.accepts")
+    if raised is None and what.startswith("nbr"):
+        # brute force on the real result: in a 0-dimensional coordinate range every distance is 0 (ord 1 / 2)
+        pd = D if case["pdim"] is None else case["pdim"]
+        Z = (X.double() * 4).round().to(torch.int64).numpy()[:, :pd]
+        Kk = U.pair_keys(Z, Z, o) if N else np.zeros((0, 0), dtype=np.int64)
+        cnt = (Kk <= U.radius_key(1.0, 2, o)).sum(1) - 1 if N else np.zeros(0, dtype=np.int64)
+        want = X[torch.from_numpy(cnt >= case["n"])] if N else X
+        if tuple(out.shape) != tuple(want.shape) or not torch.equal(out, want):
+            ctx.fail(case, f"edge-nbr: nbr_filter(pdim={case['pdim']}, ord={o}) on a ({N}, {D}) cloud returns {tuple(out.shape)}; "
+                           f"with {pd} coordinate columns {int((cnt >= case['n']).sum()) if N else 0} points have >= {case['n']} others within 1.0")
+            return False
+    if line is not None and jobs is not None:
+        shape = None if out is None else tuple(out.shape)
+        vals = None if out is None else out.double()
+
+        def cb(st, toks, raised=raised, shape=shape, vals=vals):
+            if (st == "err") != (raised is not None):
+                ctx.disagree("edge", case, f"{what}: implementation {'raises ' + raised if raised else 'returns ' + str(shape)}, "
+                                           f"entry-point model {'rejects (' + str(toks) + ')' if st == 'err' else 'accepts'}")
+                return
+            if st == "ok" and what.startswith(("nbr", "randf")):
+                body = toks[2:] if what.startswith("nbr") else toks        # nbr: "M nomask rows…"
+                mv = nums(body)
+                if len(mv) != vals.numel() or (mv and not torch.equal(torch.tensor(mv, dtype=torch.float64), vals.reshape(-1))):
+                    ctx.disagree("edge", case, f"{what}: implementation returns {vals.tolist()}, entry-point model {mv}")
+            if st == "ok" and what.startswith("knnf") and int(toks[0]) != shape[0]:
+                ctx.disagree("edge", case, f"{what}: implementation returns {shape}, entry-point model {toks[0]} rows")
+        jobs.add(1, line, cb)
+    return True
+
+
+def edge_cases():
+    out = []
+    seed = 0
+    for dtp in ("float32", "float64"):
+        for o in ORDS:
+            base = {"stream": "edge", "dtype": dtp, "ord": o}
+            for N in (0, 1, 3):
+                seed += 1
+                q = {**base, "N": N, "data_seed": seed}
+                out.append({**q, "what": "nbr_pdim0", "D": 3, "pdim": 0, "n": 1})
+                out.append({**q, "what": "nbr_width0", "D": 0, "pdim": None, "n": 0})
+                out.append({**q, "what": "knnf_pdim0", "D": 2, "pdim": 0, "k": 0})
+                out.append({**q, "what": "knnf_width0", "D": 0, "pdim": None, "k": min(1, max(N - 1, 0)), "radius": 1.0})
+                out.append({**q, "what": "knn_width0", "D": 0, "k": min(1, N)})
+            for pdim in (None, 0, 2, 3, 4):
+                seed += 1
+                out.append({**base, "what": "nbr_empty_cloud", "N": 0, "D": 3, "pdim": pdim, "n": 0, "data_seed": seed})
+                out.append({**base, "what": "knnf_empty_cloud", "N": 0, "D": 3, "pdim": pdim, "k": 0, "data_seed": seed})
+        for N in (0, 2):
+            seed += 1
+            q = {"stream": "edge", "dtype": dtp, "ord": 2, "N": N, "data_seed": seed}
+            out.append({**q, "what": "voxel_empty_sizes", "D": 3})
+            out.append({**q, "what": "voxel_empty_sizes_random", "D": 2})
+            out.append({**q, "what": "randf_width0", "D": 0, "num": 0})
+            out.append({**q, "what": "randf_width0", "D": 0, "num": N})
+            out.append({**q, "what": "randf_empty_cloud", "N": 0, "D": 3, "num": 0})
+            out.append({**q, "what": "voxel_empty_cloud", "N": 0, "D": 2})
     return out
 
 
@@ -2453,13 +2615,15 @@ def gen_homo_case(rng, **over):
 
 
 CHECKS = {"knn": check_knn, "nbr": check_nbr, "voxel": check_voxel, "knnf": check_knnf, "randf": check_randf,
-          "camera": check_camera, "homo": check_homo, "hist": check_hist, "bad": check_bad, "large": check_large, "seq": check_seq}
+          "camera": check_camera, "homo": check_homo, "hist": check_hist, "bad": check_bad, "large": check_large, "seq": check_seq, "edge": check_edge}
 
 
 def signature(c):
     st = c["stream"]
     if st == "large":
         return ("large", c["fn"], c["M"], c["dtype"], c.get("shape"), c.get("k"), c.get("random"))
+    if st == "edge":
+        return ("edge", c["what"], c["N"], c["D"], str(c["ord"]), c["dtype"], c.get("pdim"))
     if st == "seq":
         return ("seq", tuple((q["stream"], q.get("gmode"), bool(q.get("default64")), q.get("N")) for q in c["steps"]))
     if st == "hist":
@@ -2509,7 +2673,7 @@ def run_case(ctx: Ctx, c, jobs):
     ctx.count(f"{st}")
     if st == "large":
         ctx.count(f"large.{c['fn']}")
-    if st not in ("camera", "homo", "hist", "large", "seq"):
+    if st not in ("camera", "homo", "hist", "large", "seq", "edge"):
         ctx.count(f"{st}.kind.{c['kind']}")
         ctx.count(f"{st}.N.{['1', '2-6', '7-24', '25-70', '71-300'][nbucket(c['N'])]}")
         ctx.count(f"{st}.ord.{c['ord']}")
@@ -2739,6 +2903,8 @@ def corpus_cases():
                     it += 1
                     out.append(gen_voxel_case(r, 40, kind=kind, dtype=dtp, N=[5, 12, 26][it % 3], vox_mode=vm, random=rnd_,
                                               rng_mode=["hi", "lo"][it % 2], mag_exp=0))
+    # ---- audit round: degenerate sizes at the entry points (voxel=[], pdim=0, width-0 points, the empty cloud (0, D))
+    out += edge_cases()
     # ---- pass 4 -------------------------------------------------------------------------------------------------
     # (19) large sizes: one > 2^14 and one > 2^16 per entry point (O(N) functions), 2^10+1 / 2^11+1 for the O(N^2) ones
     out += gen_large_cases(r, [16385, 65537]) + gen_large_quadratic(r, [1025, 2049])
